@@ -50,6 +50,10 @@ EXPLANATION += ' Added: (R8) also a second call of convert_to_segmented on the s
 TECHNIQUE += '; backward slice evaluation of the table sizing'
 EXPLANATION += ' Added: (R13) the statements that size the kernel tables (a backward slice from the GaussianOverlap constructor call) evaluated on two bases of different height in both orders. R11 runs to n1, n2 <= 7 as the property quantifies, compares polynomials up to rounding of numeric constants (a kernel by quadrature with enough points passes, one point too few fails at S(7, 7)) and evaluates class-level attributes.'
 # --- end metadata batch 8
+# --- metadata added after the round-2 refactoring twins
+TECHNIQUE += '; whole-function abstract interpretation of compute_overlap on model bases (decision table of the guards, metamorphic relations)'
+EXPLANATION += ' R2, R4 and R5 no longer read the statements of compute_overlap: the function is interpreted as a whole (iodalint.accessors; scipy binom / factorial2 as exact stubs, the Cartesian-to-pure tables those decided by R1) on small model bases without symmetry. R2 is the decision table over (normalisation of either basis, second basis given, second geometry given); R5 is: one basis gives a symmetric matrix, equal to the two-basis call with the same basis, and exchanging two different bases transposes the matrix; R4 is: a basis with an SP shell and a (pure d, p) shell gives the matrix of its segmented form, as only, first or second basis. Added (R14): unit diagonal for normalised functions, the closed-form s-s element, no empty off-diagonal block for a geometry without symmetry, translation invariance, and a change of conventions permutes / sign-flips rows and columns as the labels say. These relations hold for any correct implementation, however it is organised (dispatch in a helper, other loop shapes); they decide the model bases only -- the quantifier over all bases is reached through R1, R6-R13, which decide the pieces for all arguments.'
+# --- end metadata round-2 twins
 
 
 def df(n):
